@@ -304,6 +304,21 @@ Variable va : N.
 Notation fs := (fieldsz pf).
 Notation next := (next_step_pgt readmem tgt mask pf).
 
+(** the entry of a huge-page directory: read like a last-level entry, whatever
+    the indices are *)
+Definition hugepd_leaf_sim (s : step) : Prop :=
+  match rd_entry readmem af mask (s_as s) (s_base s) with
+  | RdErr e => e <> OK -> exists s', next s = (e, s')
+  | RdOk hpte =>
+    match af_decode af tgt fs 1 hpte va with
+    | DTable _ pb | DLeaf pb _ =>
+        exists s', next s = (OK, s') /\ s_remain s' = 1%nat /\ s_elemsz s' = 1 /\
+                   s_idx s' = s_idx s /\ s_base s' = pb
+    | DNotPresent => exists s', next s = (NOTPRESENT, s')
+    | DInvalid | DHugeDir _ _ _ => exists s', next s = (INVALID, s')
+    end
+  end.
+
 (** one table entry: the format's next-step function does what [af_decode] says *)
 Definition sim_at (l : nat) (s : step) : Prop :=
   match rd_entry readmem af mask (s_as s) (s_base s) with
@@ -317,6 +332,13 @@ Definition sim_at (l : nat) (s : step) : Prop :=
         exists s', next s = (OK, s') /\ s_remain s' = 1%nat /\ s_elemsz s' = 1 /\
                    (1 <= length (s_idx s'))%nat /\
                    w (s_base s' + nthN (s_idx s') 0) = w (b + va mod 2^sz)
+    | DHugeDir a b sh =>
+        (2 <= l)%nat /\
+        exists s', next s = (OK, s') /\ s_remain s' = 2%nat /\ s_as s' = a /\ s_base s' = b /\
+                   s_elemsz s' = s_elemsz s /\ (2 <= length (s_idx s'))%nat /\
+                   nthN (s_idx s') 1 = va mod 2^(lo fs l) / 2^sh /\
+                   nthN (s_idx s') 0 = (va mod 2^(lo fs l)) mod 2^sh /\
+                   forall s2, s_remain s2 = 1%nat -> s_idx s2 = s_idx s' -> hugepd_leaf_sim s2
     | DNotPresent => exists s', next s = (NOTPRESENT, s')
     | DInvalid => exists s', next s = (INVALID, s')
     end
@@ -367,7 +389,7 @@ Proof.
     unfold sim_at in Hs1. rewrite Hb1 in Hs1. change (s_as s1) with (s_as s) in Hs1.
     destruct (rd_entry readmem af mask (s_as s) (w (s_base s + field fs (S l) va * af_ptesz af)))
       as [pte|e] eqn:Erd.
-    + destruct (af_decode af tgt fs (S l) pte va) as [a b|b sz| |] eqn:Edec.
+    + destruct (af_decode af tgt fs (S l) pte va) as [a b|b sz|a b sz| |] eqn:Edec.
       * destruct Hs1 as (s' & Hn & Has & Hbs & Hrem & Hes & Hix). rewrite Hn.
         rewrite IH; try lia.
         -- now rewrite Has, Hbs.
@@ -378,6 +400,40 @@ Proof.
         unfold advance. destruct (Nat.leb_spec (length (s_idx s')) 0); [lia|].
         cbn [observe set_elemsz set_as s_as s_base m_target].
         rewrite Hes. unfold wadd, wmul. rewrite N.mul_1_r, w_add_r. now rewrite Hfin.
+      * (* huge-page directory: two more steps *)
+        destruct Hs1 as (Hl2 & s' & Hn & Hrem & Has & Hbs & Hes & Hlen & Hi1 & Hi0 & Hleaf). rewrite Hn.
+        destruct fuel as [|fuel]; [lia|]. cbn [walk_loop]. rewrite Hrem.
+        unfold advance. destruct (Nat.leb_spec (length (s_idx s')) 1); [lia|].
+        cbn [next_step m_kind m_target].
+        set (s2 := mkstep _ _ _ _ _ _).
+        specialize (Hleaf s2 eq_refl eq_refl). unfold hugepd_leaf_sim in Hleaf.
+        assert (Hb2 : s_base s2 = w (b + va mod 2^(lo fs (S l)) / 2^sz * af_ptesz af)).
+        { unfold s2. cbn [s_base]. rewrite Hbs, Hi1, Hes. unfold s1. cbn [s_elemsz].
+          unfold wadd, wmul. now rewrite w_add_r. }
+        rewrite Hb2 in Hleaf. change (s_as s2) with (s_as s') in Hleaf. rewrite Has in Hleaf.
+        destruct (rd_entry readmem af mask a (w (b + va mod 2^(lo fs (S l)) / 2^sz * af_ptesz af)))
+          as [hpte|e] eqn:Erd2.
+        -- assert (Hfin : forall s3 pb, next s2 = (OK, s3) -> s_remain s3 = 1%nat -> s_elemsz s3 = 1 ->
+                     s_idx s3 = s_idx s2 -> s_base s3 = pb ->
+                     observe (match next s2 with
+                              | (OK, s2') => walk_loop readmem {| m_kind := KPgt ras root mask pf; m_target := tgt |} fuel s2'
+                              | r => r end)
+                     = (OK, Some (tgt, w (pb + (va mod 2^(lo fs (S l))) mod 2^sz)))).
+           { intros s3 pb Hn3 Hr3 He3 Hi3 Hb3. rewrite Hn3.
+             destruct fuel as [|fuel]; [lia|]. cbn [walk_loop]. rewrite Hr3.
+             unfold advance. rewrite Hi3. unfold s2 at 1. cbn [s_idx].
+             destruct (Nat.leb_spec (length (s_idx s')) 0); [lia|].
+             cbn [observe set_elemsz set_as s_as s_base m_target].
+             rewrite He3, Hb3. unfold s2. cbn [s_idx]. rewrite Hi0.
+             unfold wadd, wmul. now rewrite N.mul_1_r, w_add_r. }
+           destruct (af_decode af tgt fs 1 hpte va) as [a3 pb|pb sz3|a3 b3 sh3| |] eqn:Edec2.
+           ++ destruct Hleaf as (s3 & Hn3 & Hr3 & He3 & Hi3 & Hb3). eapply Hfin; eauto.
+           ++ destruct Hleaf as (s3 & Hn3 & Hr3 & He3 & Hi3 & Hb3). eapply Hfin; eauto.
+           ++ destruct Hleaf as (s3 & Hn3). rewrite Hn3. reflexivity.
+           ++ destruct Hleaf as (s3 & Hn3). rewrite Hn3. reflexivity.
+           ++ destruct Hleaf as (s3 & Hn3). rewrite Hn3. reflexivity.
+        -- apply rd_entry_err in Erd2. destruct (Hleaf Erd2) as (s3 & Hn3). rewrite Hn3.
+           destruct e; try reflexivity. contradiction.
       * destruct Hs1 as (s' & Hn). rewrite Hn. reflexivity.
       * destruct Hs1 as (s' & Hn). rewrite Hn. reflexivity.
     + apply rd_entry_err in Erd. destruct (Hs1 Erd) as (s' & Hn). rewrite Hn.
